@@ -132,6 +132,9 @@ pub fn check_session(model: &mut Model, rep: &mut Report, src: &str, inputs: Opt
         // the total order of median / percentile sees the sign of a NaN produced by arithmetic, which is
         // platform-defined and not observable in the model: the session agrees under the other convention
         rep.count("nan-sign-convention");
+    } else if m != real && (src.contains("min") || src.contains("max")) && m.replace("8000000000000000", "0000000000000000") == real.replace("8000000000000000", "0000000000000000") {
+        // the sign of a zero returned by f64::min / f64::max on a tie is build-dependent
+        rep.count("min-max-zero-sign");
     } else if m != real {
         rep.finding("model", "session", src, &format!("impl={} model={}", short(&real), short(&m)), &format!("{}.model.session", keyp));
     }
